@@ -18,6 +18,11 @@ fn check_same<T: Elt>(a: &Matrix<T>, snap: &Matrix<T>, what: &str) {
     if !same(a, snap) { panic!("harness: operand mutated by {}", what); }
 }
 
+// the norms exist for Matrix<f64> only; `run` is generic in the element type
+fn as_f64<T: Elt>(m: &Matrix<T>) -> &Matrix<f64> {
+    (m as &dyn std::any::Any).downcast_ref::<Matrix<f64>>().unwrap_or_else(|| panic!("harness: norms need elt f64"))
+}
+
 // one step of a history; returns normally or panics (caught by the caller)
 fn step<T: Elt>(m: &mut Matrix<T>, op: &str, a: &mut Args, out: &mut Out) {
     match op {
@@ -102,6 +107,14 @@ pub fn run<T: Elt>(kind: &str, a: &mut Args, out: &mut Out) {
                 out.m(&m);
             }
         }
+        // norms of functions.rs (impl Matrix<f64> only): norm_1, norm_inf, norm_max, norm_frob
+        "mat.norms" => { let m = a.m::<T>(); let snap = m.clone();
+            let mf = as_f64(&m);
+            let (n1, ni, nm, nf) = (mf.norm_1(), mf.norm_inf(), mf.norm_max(), mf.norm_frob());
+            check_same(&m, &snap, "norms");
+            out.f(n1); out.f(ni); out.f(nm); out.f(nf); }
+        // norm_p(p) for a general exponent (libm powf: oracle only)
+        "mat.norm_p" => { let m = a.m::<T>(); let p = a.f64(); out.f(as_f64(&m).norm_p(p)); }
         "mat.solve_basic" => { let mut m = a.m::<T>(); let b = a.v::<T>(); let bs = b.clone();
             let x = m.solve_basic(&b); if !same_v(&b, &bs) { panic!("harness: operand mutated by solve_basic"); } out.v(&x); }
         "mat.solve_lu" => { let mut m = a.m::<T>(); let b = a.v::<T>(); let bs = b.clone();
